@@ -610,7 +610,9 @@ func (x *Exec) binop(fr *Frame, op token.Token, a, b Value, ta, tb types.Type, p
 		switch op {
 		case token.ADD:
 			if len(av.alts)*len(bv.alts) > 64 {
-				notEncodable("string concat product too large at %s", x.framePos(fr, p))
+				// message text built from many alternatives: an opaque string that equals no literal
+				x.warnings["opaque string from a concatenation with more than 64 alternatives at "+x.framePos(fr, p)]++
+				return concreteStr("\x00<opaque>")
 			}
 			var alts []StrAlt
 			for _, p1 := range av.alts {
